@@ -53,8 +53,10 @@ def eval_case(case, rng, thorough):
     noise = []
     if rng.random() < 0.5 and not soak:
         for k in range(rng.randrange(1, 4)):
-            kind = rng.choice(["http", "other-port", "udp"])
-            if kind == "http":
+            kind = rng.choice(["http", "other-port", "udp", "link"])
+            if kind == "link":
+                noise.append(scene.link_noise(rng, rng.randrange(1, 5), k))
+            elif kind == "http":
                 noise.append(scene.http_on_443(rng, k))
             elif kind == "other-port":
                 c = tlssynth.build_conn(tlssynth.Spec(version=0x0303, suite=0xC02F, app=[("c", b"x" * 10)]), rng)
